@@ -309,6 +309,29 @@ theorem decimalStrToFloatDirect_unsound :
         (fun s => s.heap.take 1)
       = some [⟨[48, 49, 48, 53], true⟩] := by decide
 
+/-- accepting another spelling by normalising it IN PLACE on the caller's array: a call that used to raise on "1E3" now
+succeeds — and leaves "1e3" in the caller's text. The static check rejects the program; the run shows the changed buffer;
+and where a LATER step raises (the lengths argument unbound) the text has been rewritten all the same. -/
+theorem strToFloatFoldExponentInPlace_unsound :
+    let prog := strToFloatFoldExponentInPlace (fun a => a.headD []) (fun _ => []) (fun c _ => c)
+    safe prog [] = false ∧
+    (run prog { heap := [⟨[49, 69, 51], true⟩, ⟨[3], true⟩], env := [some ⟨0, [0, 1, 2]⟩, some ⟨1, [0]⟩] }).map
+        (fun s => s.heap.take 1) = some [⟨[49, 101, 51], true⟩] ∧
+    run (prog ++ [.view 9 8 (fun _ => [])]) { heap := [⟨[49, 69, 51], true⟩, ⟨[3], true⟩], env := [some ⟨0, [0, 1, 2]⟩, some ⟨1, [0]⟩] } = none ∧
+    ((runUntil (prog ++ [.view 9 8 (fun _ => [])]) { heap := [⟨[49, 69, 51], true⟩, ⟨[3], true⟩], env := [some ⟨0, [0, 1, 2]⟩, some ⟨1, [0]⟩] }).heap.take 1)
+      = [⟨[49, 101, 51], true⟩] := by decide
+
+/-- the same acceptance on a private copy changes no caller buffer, for every heap and every argument -/
+theorem frame_str_to_float_fold_on_copy_model (selRows value : List Bytes → Bytes) (zeroDots : Bytes → List Bytes → Bytes)
+    (h : Heap) (env : Env) (s' : State)
+    (hr : run (strToFloatFoldExponentOnCopy selRows value zeroDots) { heap := h, env := env } = some s') :
+    s'.heap.take h.length = h :=
+  frame _ rfl h env s' hr
+
+example : ∃ s', run (strToFloatFoldExponentOnCopy (fun a => a.headD []) (fun _ => []) (fun c _ => c))
+    { heap := [⟨[49, 69, 51], true⟩, ⟨[3], true⟩], env := [some ⟨0, [0, 1, 2]⟩, some ⟨1, [0]⟩] } = some s' ∧
+    s'.heap.take 2 = [⟨[49, 69, 51], true⟩, ⟨[3], true⟩] := ⟨_, rfl, by decide⟩
+
 /-- list-valued columns: the separator is written into the gathered field text, never into the file buffer -/
 theorem frame_parse_split_fields_model (gather value : List Bytes → Bytes) (putSep : Bytes → List Bytes → Bytes)
     (h : Heap) (env : Env) (s' : State)
